@@ -451,6 +451,10 @@ def check(P, R, tier):
     # the clamp targets take the year's leapness from the one place that is checked (C01 RF2-leap)
     import c01
     c01.check_leap_source(P, R, tu)
+    # the adders and the clamps decoded (the count symbolic over a window, the clamps over their whole domain)
+    import monthdecode
+    nm = monthdecode.run(R, tu, "RF2-mon")
+    R.floor("RF2-mon", "decoded points of the month / year adders and fixups", nm, 30000)
 
 
 LEVEL = ("Decides month / year addition structurally for all dates and counts: 12*year + month moves by exactly n (linear loop "
